@@ -824,6 +824,17 @@ wild_atom = st.one_of(
                      ['str', ''], ['str', 'UBER'], ['str', '2024-01-01'], ['str', 'not-a-date'], ['str', '5'], ['lit', True], ['lit', False]]),
     st.sampled_from(BAD_REGEX).map(lambda s: ['str', s]),
     pattern_text.map(lambda s: ['str', s]),
+    # next() without default running dry INSIDE another generator / comprehension / multi-argument min-max
+    st.sampled_from([
+        ['anygen', ['cmp', ['nextgen', ['attr', 's', 'item'], 's', ['name', 'receipts'], ['lit', False], None], [['==', ['str', 'x']]]], 'o', ['name', 'orders'], None],
+        ['anygen', ['lit', True], 'o', ['name', 'orders'], ['nextgen', ['name', 's'], 's', ['name', 'receipts'], ['lit', False], None]],
+        ['listcomp', ['nextgen', ['attr', 's', 'item'], 's', ['name', 'orders'], ['lit', False], None], 'r', ['name', 'receipts'], None],
+        ['listcomp', ['name', 'r'], 'r', ['name', 'orders'], ['nextgen', ['name', 's'], 's', ['name', 'orders'], ['lit', False], None]],
+        ['sumgen', ['nextgen', ['attr', 's', 'amount'], 's', ['name', 'orders'], ['cmp', ['attr', 's', 'amount'], [['>', ['num', 10 ** 9]]]], None], 'o', ['name', 'orders'], None],
+        ['min2', ['nextgen', ['attr', 's', 'amount'], 's', ['name', 'orders'], ['lit', False], None], ['num', 1]],
+        ['max2', ['num', 1], ['nextgen', ['attr', 's', 'amount'], 's', ['name', 'receipts'], ['lit', False], None]],
+        ['nextgen', ['nextgen', ['name', 's'], 's', ['name', 'orders'], ['lit', False], None], 'o', ['name', 'orders'], None, None],
+    ]),
 )
 
 
